@@ -6,6 +6,8 @@ Tie: real threads under the deterministic line-level scheduler (harness/sched.py
 Every executed schedule is mapped to a schedule of the Lean model (Driver/C16.lean; the MemoryLogger
 model is compiled from the regenerated skeleton table E1, the file model from skeleton E2) and the
 model must predict the same final lists / file content and what every reader saw.
+  (c) 2-3 threads logging through the default Logger to a destination that fails on every ordinary message
+      (no model: oracle only - as many eliot:destination_failure reports as failed deliveries, each message offered once).
 Oracles (model-free): pairing message <-> own serializer, equal lengths, nothing duplicated or
 lost, traceback list = sequential specification in the *observed* lock-acquisition order, readers
 see paired lists; file: every line intact, multiset of lines = expected, per-thread order kept.
@@ -15,6 +17,7 @@ programs first, larger budget) and reports the failing schedule as replay.
 import io
 import itertools
 import json
+import re
 import os
 import tempfile
 import time
@@ -722,6 +725,7 @@ def run(ctx):
         if "correspondence:memlog-model" not in ctx.broken:
             ctx.obligation("correspondence:memlog-model", "correspondence", True, "%d executed schedules: model predicts the same final lists and reader observations" % agree)
     run_files(ctx, S, srng, broken)
+    run_reports(ctx, srng)
 
 
 def run_files(ctx, S, srng, broken):
@@ -797,6 +801,103 @@ def run_files(ctx, S, srng, broken):
             ctx.obligation(name, "correspondence", True, "%d executed schedules: model predicts the same file content and write order" % agree)
 
 
+# ---- real side: destination-failure reports from several threads ---------------------------------
+
+def report_scheduler(timeout=30.0):
+    import ast
+
+    names = {"<lambda>"}
+    tree = ast.parse(open(OUTPUT).read())
+    for c in tree.body:
+        if isinstance(c, ast.ClassDef) and c.name in ("BufferingDestination", "Destinations"):
+            names |= {f.name for f in c.body if isinstance(f, ast.FunctionDef)}
+    return sched.Scheduler([OUTPUT], [sched.LockLines(OUTPUT)], timeout=timeout, only_funcs=names - {"__init__"})
+
+
+def run_reports_once(S, per, chooser):
+    """`per[t]` ordinary messages are logged by thread t through the default Logger machinery to two
+    destinations: `flaky` raises on every ordinary message, `healthy` records everything."""
+    import eliot._output as O
+
+    D = O.Destinations()
+    saved = O.Logger._destinations
+    O.Logger._destinations = D
+    seen, offered = [], []
+
+    def flaky(m):
+        offered.append((m.get("message_type"), m.get("n")))
+        if m.get("message_type") == "m":
+            raise IOError("flaky destination")
+
+    def healthy(m):
+        seen.append(dict(message_type=m.get("message_type"), n=m.get("n"), about=str(m.get("message"))))
+
+    try:
+        D.add(flaky, healthy)
+        errors = []
+
+        def worker(t, k):
+            def body():
+                for j in range(k):
+                    try:
+                        O.Logger().write({"message_type": "m", "n": 10 * t + j})
+                    except BaseException as e:  # noqa - observation
+                        errors.append(type(e).__name__)
+            return body
+
+        res = S.run([worker(t, k) for t, k in enumerate(per)], chooser)
+    finally:
+        O.Logger._destinations = saved
+    return res, dict(seen=seen, offered=offered, errors=errors)
+
+
+def oracle_reports(per, res, obs):
+    if res.deadlock:
+        return ["threads deadlocked"]
+    bad = []
+    ids = [10 * t + j for t, k in enumerate(per) for j in range(k)]
+    if obs["errors"]:
+        bad.append("logging raised into the application: %s" % obs["errors"])
+    ordinary = [m["n"] for m in obs["seen"] if m["message_type"] == "m"]
+    reports = [m for m in obs["seen"] if m["message_type"] == "eliot:destination_failure"]
+    if sorted(ordinary) != sorted(ids):
+        bad.append("healthy destination received ordinary messages %s, logged %s" % (sorted(ordinary), sorted(ids)))
+    off = [n for t, n in obs["offered"] if t == "m"]
+    if sorted(off) != sorted(ids):
+        bad.append("failing destination was offered ordinary messages %s, logged %s" % (sorted(off), sorted(ids)))
+    about = []
+    for r in reports:
+        mm = re.search(r"'n'\W+(\d+)", r["about"] or "")
+        about.append(int(mm.group(1)) if mm else None)
+    if len(reports) != len(ids) or sorted(x for x in about if x is not None) != sorted(ids):
+        bad.append("%d deliveries failed (messages %s) but %d eliot:destination_failure reports were delivered (about %s)"
+                   % (len(ids), sorted(ids), len(reports), about))
+    nrep_offered = sum(1 for t, _ in obs["offered"] if t == "eliot:destination_failure")
+    if nrep_offered != len(reports):
+        bad.append("reports offered to the two destinations differ: %d vs %d" % (nrep_offered, len(reports)))
+    return bad
+
+
+def run_reports(ctx, srng):
+    S = report_scheduler()
+    total = Budget(ctx.budget(20, 200))
+    nviol = 0
+    for pi, per in enumerate([[1, 1], [2, 1]] + ([] if ctx.quick else [[1, 1, 1], [2, 2]])):
+        if total.left() <= 0 or nviol:
+            break
+        budget = Budget(max(1.0, total.left() / 2))
+        for how, (res, obs) in schedules(ctx, lambda ch: run_reports_once(S, per, ch), srng, ctx.budget(2, 3), ctx.budget(250, 4000),
+                                         ctx.budget(20, 300), budget):
+            case = dict(kind="reports", per=per, schedule=res.schedule)
+            ctx.case(case, nontrivial=res.preemptions >= 1, tags=["reports:threads:%d" % len(per), "reports:sched:" + how,
+                                                                  "reports:preemptions:%d" % min(res.preemptions, 4)])
+            bad = oracle_reports(per, res, obs)
+            if bad:
+                nviol += 1
+                ctx.violation(bad[0], dict(case, observed=obs, also=bad[1:3]), key=None)
+                break
+
+
 # ---- replay ------------------------------------------------------------------------------------------
 
 def replay(ctx, obj):
@@ -821,6 +922,13 @@ def replay(ctx, obj):
         bad = oracle_file(fc, res, msgs, raw, errors)
         if bad:
             ctx.violation(bad[0], dict(case, content=raw.decode("utf-8", "replace")[:2000], also=bad[1:4]))
+    elif case.get("kind") == "reports":
+        res, obs = run_reports_once(report_scheduler(), case["per"], sched.Explicit(case["schedule"]))
+        print("executed:", [(s.tid, s.line, s.func) for s in res.trace][:600])
+        print("healthy destination saw:", obs["seen"])
+        bad = oracle_reports(case["per"], res, obs)
+        if bad:
+            ctx.violation(bad[0], dict(case, observed=obs, also=bad[1:3]))
     else:
         # broken-obligation replays carry no single case: re-run the whole check
         run(ctx)
